@@ -198,3 +198,156 @@ func VH_C04_RotateDefault() {
 	}
 	verifrt.Reach("end")
 }
+
+func (p *vhPre) activeCount() int {
+	c := 0
+	for s := 0; s < p.M; s++ {
+		if p.active(s) {
+			c++
+		}
+	}
+	return c
+}
+
+func (p *vhPre) firstActiveBefore(s int) int {
+	for i := 1; i < p.M; i++ {
+		t := (s + p.M - i) % p.M
+		if p.active(t) {
+			return t
+		}
+	}
+	return -1
+}
+
+func (p *vhPre) firstActiveAfter(s int) int {
+	for i := 1; i < p.M; i++ {
+		t := (s + i) % p.M
+		if p.active(t) {
+			return t
+		}
+	}
+	return -1
+}
+
+// VH_C04_Init: InitPositions (random or first-seat) from any seating before the first hand.
+func VH_C04_Init() {
+	M := verifrt.Cfg("M")
+	sm := vhArbitrarySM(M, Rule_Default)
+	verifrt.Assume(!sm.IsInit && sm.DealerSeatID == -1 && sm.SBSeatID == -1 && sm.BBSeatID == -1)
+	p := vhCapture(sm)
+	random := verifrt.Cfg("random") == 1
+	err := sm.InitPositions(random)
+	ac := p.activeCount()
+	if err != nil {
+		verifrt.Reach("refused")
+		verifrt.Assert(ac < 2, "initial positions are refused only with fewer than two dealt-in players")
+		verifrt.Assert(!sm.IsInit && sm.DealerSeatID == -1 && sm.SBSeatID == -1 && sm.BBSeatID == -1, "refused initialisation moves nothing")
+	} else {
+		verifrt.Reach("initialised")
+		verifrt.Assert(ac >= 2 && sm.IsInit, "initialised with at least two dealt in")
+		bb := sm.BBSeatID
+		verifrt.Assert(vhInRange(bb, M) && p.active(bb), "big-blind seat holds a dealt-in player")
+		if !random {
+			first := -1
+			for s := M - 1; s >= 0; s-- {
+				if p.active(s) {
+					first = s
+				}
+			}
+			verifrt.Assert(bb == first, "non-random initialisation puts the big blind on the lowest dealt-in seat")
+		}
+		if ac == 2 {
+			verifrt.Assert(sm.DealerSeatID == sm.SBSeatID && vhInRange(sm.DealerSeatID, M) && sm.DealerSeatID != bb && p.active(sm.DealerSeatID), "heads-up: dealer and small blind are the other player")
+		} else {
+			verifrt.Assert(sm.SBSeatID == p.firstActiveBefore(bb), "ring: small blind is the nearest dealt-in seat before the big blind")
+			verifrt.Assert(sm.DealerSeatID == p.firstActiveBefore(sm.SBSeatID), "ring: dealer is the nearest dealt-in seat before the small blind")
+			verifrt.Assert(sm.DealerSeatID != sm.SBSeatID && sm.SBSeatID != bb && sm.DealerSeatID != bb, "ring: the three seats are distinct")
+		}
+		verifrt.Assert(vhShapeInv(sm), "shape invariant established")
+	}
+	verifrt.Reach("end")
+}
+
+// VH_C04_ShortDeck: short-deck tables pass the dealer to the next dealt-in seat.
+func VH_C04_ShortDeck() {
+	M := verifrt.Cfg("M")
+	sm := vhArbitrarySM(M, Rule_ShortDeck)
+	initial := verifrt.Bool("initial")
+	if initial {
+		verifrt.Assume(!sm.IsInit && sm.DealerSeatID == -1 && sm.SBSeatID == -1 && sm.BBSeatID == -1)
+	} else {
+		verifrt.Assume(sm.IsInit && vhShapeInv(sm))
+	}
+	p := vhCapture(sm)
+	var err error
+	if initial {
+		err = sm.InitPositions(verifrt.Bool("random"))
+	} else {
+		err = sm.RotatePositions()
+	}
+	if err != nil {
+		verifrt.Assert(p.activeCount() < 2, "refused only with fewer than two dealt-in players")
+		verifrt.Assert(sm.DealerSeatID == p.D && sm.SBSeatID == p.SB && sm.BBSeatID == p.BB, "refusal moves nothing")
+	} else {
+		verifrt.Assert(p.activeCount() >= 2, "at least two dealt in")
+		verifrt.Assert(sm.SBSeatID == -1 && sm.BBSeatID == -1, "short deck has no blinds seats")
+		verifrt.Assert(vhInRange(sm.DealerSeatID, M) && p.active(sm.DealerSeatID), "dealer seat holds a dealt-in player")
+		if !initial {
+			verifrt.Assert(sm.DealerSeatID == p.firstActiveAfter(p.D), "dealer passes to the next dealt-in seat")
+		}
+	}
+	for s := 0; s < M; s++ {
+		if sm.SeatData[s] != nil {
+			verifrt.Assert(sm.SeatData[s].IsBetweenDealerBB == p.seats[s].btw, "short deck never touches waiting flags")
+		}
+	}
+	verifrt.Reach("end")
+}
+
+// VH_C04_InvPreserved: every mutator preserves the representation / shape
+// invariant Inv_SM ∧ J (so the step lemmas chain over histories of any length).
+// op: 0 AssignSeats, 1 RandomAssignSeats, 2 RemoveSeats, 3 JoinPlayers,
+// 4 UpdatePlayerHasChips, 5 InitPositions, 6 RotatePositions.
+func VH_C04_InvPreserved() {
+	M := verifrt.Cfg("M")
+	op := verifrt.Cfg("op")
+	sm := vhArbitrarySM(M, Rule_Default)
+	verifrt.Assume(!sm.IsInit || vhShapeInv(sm))
+	verifrt.Assume(sm.IsInit || (sm.DealerSeatID == -1 && sm.SBSeatID == -1 && sm.BBSeatID == -1))
+	idA := vhIDs[verifrt.IntRange("idA", 0, M+1)]
+	idB := vhIDs[verifrt.IntRange("idB", 0, M+1)]
+	seatA := verifrt.IntRange("seatA", -2, M+1)
+	seatB := verifrt.IntRange("seatB", -2, M+1)
+	switch op {
+	case 0:
+		sm.AssignSeats(map[string]int{idA: seatA, idB: seatB})
+	case 1:
+		sm.RandomAssignSeats([]string{idA, idB})
+	case 2:
+		sm.RemoveSeats([]string{idA, idB})
+	case 3:
+		sm.JoinPlayers([]string{idA, idB})
+	case 4:
+		sm.UpdatePlayerHasChips(idA, verifrt.Bool("chipsArg"))
+	case 5:
+		sm.InitPositions(verifrt.Bool("random"))
+	case 6:
+		sm.RotatePositions()
+	}
+	verifrt.Assert(len(sm.SeatData) == M, "seat data keeps exactly the configured seats")
+	for s := 0; s < M; s++ {
+		_, ok := sm.SeatData[s]
+		verifrt.Assert(ok, "every configured seat exists")
+		for t := 0; t < s; t++ {
+			if sm.SeatData[s] != nil && sm.SeatData[t] != nil {
+				verifrt.Assert(sm.SeatData[s].ID != sm.SeatData[t].ID, "no player holds two seats")
+			}
+		}
+	}
+	if sm.IsInit {
+		verifrt.Assert(vhShapeInv(sm), "button seats stay inside the table, small blind and big blind differ")
+	} else {
+		verifrt.Assert(sm.DealerSeatID == -1 && sm.SBSeatID == -1 && sm.BBSeatID == -1, "buttons unset before the first hand")
+	}
+	verifrt.Reach("end")
+}
